@@ -601,6 +601,18 @@ Fixpoint find_char (c : ascii) (s : string) (stop : nat) : option nat :=
                end
   end.
 
+(* the first k bytes of s are ASCII: up to k, byte offsets (what find_char returns) are code-point offsets (what
+   Python's str.find returns and the comparisons `i_cols < 4`, `i_missing < 2` of parse_scsv_schema are about).
+   Where this fails the position is outside the model (Err EUnmodelled), never a made-up number *)
+Fixpoint ascii_prefix (s : string) (k : nat) : bool :=
+  match k with
+  | 0 => true
+  | S k' => match s with
+            | EmptyString => true
+            | String c r => N.ltb (N_of_ascii c) 128 && ascii_prefix r k'
+            end
+  end.
+
 (* s.split(c) for a one-character separator; `p` holds the piece being read *)
 Fixpoint split_on (p : ascii -> bool) (s : string) : list string :=
   match s with
@@ -647,7 +659,8 @@ Definition parse_terse (t : string) : res schema :=
       match find_char ":"%char t n with
       | None => Err SCSV                                  (* find = -1 < 4 *)
       | Some i_cols =>
-          if Nat.ltb i_cols 4 then Err SCSV
+          if negb (ascii_prefix t i_cols) then Err EUnmodelled      (* non-ASCII text before the first ':' *)
+          else if Nat.ltb i_cols 4 then Err SCSV
           else match find_char "m"%char t i_cols with
                | None => Err SCSV
                | Some i_missing =>
